@@ -541,6 +541,7 @@ pub fn main() -> i32 {
         return 2;
     }
     OUT_FD.store(fd, Ordering::SeqCst);
+    main_ev("boot", &[]);
     for w in 0..NW {
         match tiny_std::thread::spawn(move || worker(w)) {
             Ok(h) => core::mem::forget(h),
